@@ -1099,8 +1099,10 @@ fn step_node<C: HCfg>(
         }
     }
     if mode == 0 && scn.background.stall_every > 0 {
-        *bg_ticks += 1;
-        if *bg_ticks % scn.background.stall_every == 0 {
+        // per node (phase-shifted by the node index), for the same reason as the packet counter
+        let _ = &bg_ticks;
+        let t = rel as u64 + 5 * ni as u64;
+        if t % scn.background.stall_every == scn.background.stall_every - 1 {
             mode = 1;
         }
     }
